@@ -78,7 +78,7 @@ NUM_FUNCS_1 = ["abs", "round", "floor", "ceil", "-", "range", "stringify", "as_n
 NAS_FUNCS_2 = ['"+"', '"-"', '"*"', '"/"', '"%"', '"<"', '"="']
 NAS_FUNCS_1 = ['"abs"', '"round"', '"||"', '"-"']
 NAS_EXTREMES = ["0", "-0", "1", "-1", "1e1000", "1e-1000", "-1E+999", "9" * 60, "0." + "0" * 40 + "1", "0e0", "1e", "", ".", "-", "1e999",
-                "18446744073709551616", "-9223372036854775809", "00", "1.", ".5", "+1", "1e+", "NaN", "inf"]
+                "18446744073709551616", "-9223372036854775809", "-9223372036854775808", "9223372036854775807", "18446744073709551615", "-2147483648", "00", "1.", ".5", "+1", "1e+", "NaN", "inf"]
 STR_BOUNDARY = ["", "a", "é", "😃", "\u0000", "aa", " "]
 
 
